@@ -316,6 +316,114 @@ def cost_tie(ctx, cm, items):
     ctx.extra['cost_tie_max_python_reads_per_model_step'] = round(worst, 3)
 
 
+BER_UNIT = 4
+BER_PRIMS = ('decode_length', 'is_end_of_data', 'detect_end_of_contents_tag', 'skip_tag', 'skip_tag_length_contents',
+             'read_tag')
+
+
+def python_ber_steps(spec, tname, data):
+    """Number of decode() calls of compiled BER types plus calls of ber.py's scanning primitives (outermost only)
+    during one decode: the quantity the step count of Ber/BerCost.v over-approximates."""
+    import asn1tools.codecs.ber as B
+    count = [0]
+    saved_f, saved_m = {}, []
+    depth = [0]
+
+    def wrap_prim(name):
+        f = getattr(B, name, None)
+        if f is None:
+            return
+        saved_f[name] = f
+
+        def g(*a, **kw):
+            if depth[0] == 0:
+                count[0] += 1
+            depth[0] += 1
+            try:
+                return f(*a, **kw)
+            finally:
+                depth[0] -= 1
+        setattr(B, name, g)
+
+    def wrap_decode(cls):
+        f = cls.__dict__['decode']
+        saved_m.append((cls, f))
+
+        def g(self, *a, **kw):
+            count[0] += 1
+            d0 = depth[0]
+            depth[0] = 0
+            try:
+                return f(self, *a, **kw)
+            finally:
+                depth[0] = d0
+        setattr(cls, 'decode', g)
+    for n in BER_PRIMS:
+        wrap_prim(n)
+    for cls in list(vars(B).values()):
+        if isinstance(cls, type) and 'decode' in cls.__dict__ and callable(cls.__dict__['decode']) and cls.__name__ != 'Compiler':
+            wrap_decode(cls)
+    try:
+        out = lib.attempt(spec.decode, tname, data)
+    finally:
+        for n, f in saved_f.items():
+            setattr(B, n, f)
+        for cls, f in saved_m:
+            setattr(cls, 'decode', f)
+    return count[0], out
+
+
+def cost_tie_ber(ctx, items):
+    """The BER analogue of cost_tie: decode() calls + scanning primitives of ber.py never exceed the step count of
+    Ber/BerCost.v on the same input, which in turn stays below Kber * (octets + 1) (theorem, re-evaluated)."""
+    import codec_ber as CB
+    rows = []
+    for c, data in items:
+        if not CB.module_in_scope(c.mod, 'ber'):
+            continue
+        spec = lib.compile_string(c.text, 'ber', numeric_enums=c.numeric)
+        n, out = python_ber_steps(spec, c.tname, data)
+        rows.append((c, data, n, out))
+    shards, index = [], []
+    for s0 in range(0, len(rows), 50):
+        part = rows[s0:s0 + 50]
+        envs, lines, cells = {}, [], []
+        for c, data, n, out in part:
+            key = (id(c.mod), c.numeric)
+            rt_of = CB.Resolver(c.mod)
+            if key not in envs:
+                envs[key] = 'env%d' % len(envs)
+                lines.append('Definition %s : env := %s.' % (envs[key], to_coq(CB.coq_env(c.mod, c.numeric))))
+            ty = to_coq(CB.coq_named_type(c.mod, rt_of, c.t, c.numeric))
+            nm = 'true' if c.numeric else 'false'
+            cells.append('(Z.of_N (snd (ber_decode_cost %s %s %s %s %s)), Z.of_N (Kber %s %s %s))' % (
+                nm, CB.FUEL, envs[key], ty, to_coq(bytes(data)), envs[key], CB.FUEL, ty))
+        lines.append('Eval vm_compute in [%s].' % ';\n '.join(cells))
+        shards.append('\n'.join(lines) + '\n')
+        index.append(part)
+    if not shards:
+        return
+    res = CC.run_shards(ctx, 'cost_ber', ['Base.Prelude', 'Base.Corr'] + CB.COQ_IMPORTS + ['Ber.DerImpl', 'Ber.BerCost', 'Ber.BerCostProofs'], shards)
+    worst = 0.0
+    for part, r in zip(index, res):
+        (cells,) = r
+        for (c, data, n, out), (cost, k) in zip(part, cells):
+            ctx.evaluations += 1
+            ctx.count('cost-tie-ber:%s' % ('value' if out[0] == 'ok' else out[1]))
+            if cost:
+                worst = max(worst, n / float(cost))
+            rep = c.replay(codec='ber', kind='cost-tie', data=data.hex(), python_steps=n, model_cost=cost, K=k)
+            # one model step stands for at most UNIT Python calls (a decode() of a wrapper type plus the tag and
+            # length primitives it calls before the model's next step); the observed maximum is reported
+            if n > BER_UNIT * cost:
+                ctx.violation('ber: Python performs %d decode calls / scanning primitives on a %d-octet input, the cost '
+                              'model of Ber/BerCost.v counts only %d steps (more than %d calls per step)'
+                              % (n, len(data), cost, BER_UNIT), rep)
+            if cost > k * (len(data) + 1):
+                ctx.violation('ber: model cost %d exceeds Kber * (octets + 1) = %d' % (cost, k * (len(data) + 1)), rep)
+    ctx.extra['cost_tie_ber_max_python_steps_per_model_step'] = round(worst, 3)
+
+
 def run(ctx):
     if ctx.replay:
         doc = json.load(open(ctx.replay))['replay']
@@ -337,6 +445,7 @@ def run(ctx):
     per_case = 6 if ctx.quick else 12
     jobs, meta = [], {}
     corr_items = {c: [] for c in mods}
+    ber_items = []
     for codec in DECODING:
         opts = X.union_opts([codec] if codec in X.BINARY else [], mods, xml_safe=(codec == 'xer'))
         cases = CC.gen_cases(ctx, opts, n, 2, numeric_choices=(False,))
@@ -366,6 +475,8 @@ def run(ctx):
                 meta[jid] = (c, codec, d, enc)
                 if codec in mods and len(d) < 300 and X.scope_ok(codec, mods, c):
                     corr_items[codec].append((c, d))
+                if codec == 'ber' and len(d) < 300:
+                    ber_items.append((c, d))
     # run in parallel workers
     import concurrent.futures
     chunks = [jobs[i::12] for i in range(12)]
@@ -399,6 +510,7 @@ def run(ctx):
         CC.corr_decode_bytes(ctx, mods[codec], items[:400 if ctx.quick else 4000], tag='corr-hostile')
     if 'uper' in mods:
         cost_tie(ctx, mods['uper'], corr_items['uper'][:120 if ctx.quick else 1500])
+    cost_tie_ber(ctx, ber_items[:100 if ctx.quick else 1200])
     ctx.extra['max_decode_seconds'] = max([r['dt'] for r in results.values()] or [0])
     for f in common.load_findings(ctx.pid):
         w = f['witness']
